@@ -29,6 +29,8 @@ from ural.quote import (
     safely_quote,
     safely_quote_qsl,
     upper_quoted,
+    SAFE_FOR_AUTH_ITEM,
+    SAFE_FOR_QUERY_ITEM,
 )
 from ural.patterns import PROTOCOL_RE, CONTROL_CHARS_RE
 from ural.facebook import is_facebook_url, parse_facebook_url
@@ -383,34 +385,36 @@ def normalize_url(
         path = path.rstrip("/")
 
     # Quoting
+    # NOTE: the quoted representation is the quoting of the unquoted one, so
+    # that both designate the same url and can be converted into one another
     if user:
+        user = safely_unquote_auth_item(user)
+
         if quoted:
-            user = safely_quote(user)
-        else:
-            user = safely_unquote_auth_item(user)
+            user = safely_quote(user, safe=SAFE_FOR_AUTH_ITEM)
 
     if password:
+        password = safely_unquote_auth_item(password)
+
         if quoted:
-            password = safely_quote(password)
-        else:
-            password = safely_unquote_auth_item(password)
+            password = safely_quote(password, safe=SAFE_FOR_AUTH_ITEM)
+
+    path = safely_unquote_path(path)
 
     if quoted:
         path = safely_quote(path)
-    else:
-        path = safely_unquote_path(path)
+
+    qsl = safely_unquote_qsl(qsl)
 
     if quoted:
-        qsl = safely_quote_qsl(qsl)
-    else:
-        qsl = safely_unquote_qsl(qsl)
+        qsl = safely_quote_qsl(qsl, safe=SAFE_FOR_QUERY_ITEM)
 
     query = safe_serialize_qsl(qsl)
 
+    fragment = safely_unquote_fragment(fragment)
+
     if quoted:
         fragment = safely_quote(fragment)
-    else:
-        fragment = safely_unquote_fragment(fragment)
 
     # Result
     netloc = unsplit_netloc(user, password, hostname, port)
